@@ -13,6 +13,8 @@ def main():
     pid, n = sys.argv[1], sys.argv[2]
     suite = "--no-suite" not in sys.argv
     src = Path(f"/tmp/seed-{pid}-out/{n}")
+    if int(n) > 2:                       # round 2: /tmp/seed2-Cxx-out/{1,2} are stored as Cxx-3, Cxx-4
+        src = Path(f"/tmp/seed2-{pid}-out/{int(n) - 2}")
     wt = Path(f"/tmp/confirm-{pid}-{n}")
     res = {}
     sh(["git", "-C", "/repo", "worktree", "remove", "--force", str(wt)])
